@@ -279,6 +279,8 @@ pub fn instances(vars: &[VarDecl], level: u8) -> Vec<Con> {
             (vec![1, 1, 1], vec![1, 1, 1], 1),
             (vec![2, 1, 2], vec![1, 2, 1], 2),
             (vec![2, 0, 1], vec![2, 1, 0], 2),
+            // a zero-duration task with the largest resource usage
+            (vec![0, 2, 2], vec![2, 1, 2], 2),
         ] {
             // (the second task set also under the five non-default propagation methods)
             if d == vec![2, 1, 2] {
@@ -1052,6 +1054,51 @@ pub fn m10(_level: u8) -> Vec<Model> {
             ];
             for c in cons {
                 out.push(Model::new(vars.clone(), c));
+            }
+        }
+    }
+    out
+}
+
+/// M11: literals used as 0-1 integer variables through offset / scaled views of the literals
+/// themselves (`Literal::offset`, `Literal::scaled`), alone and in pairs.
+pub fn m11(level: u8) -> Vec<Model> {
+    let vars = vec![VarDecl::lit(), VarDecl::lit(), VarDecl::lit()];
+    let w = View::new;
+    let pool: Vec<Con> = vec![
+        // (a-2) + (b-2) + (c-1) <= -4, i.e. a + b + c <= 1
+        Con::LinLe(vec![w(0, 1, -2), w(1, 1, -2), w(2, 1, -1)], -4),
+        Con::LinLe(vec![w(0, 2, 0), w(1, -1, 0), w(2, 1, 3)], 3),
+        Con::LinLe(vec![w(0, -3, 0), w(1, 1, 1)], -1),
+        Con::LinEq(vec![w(0, 1, 2), w(1, 1, -1), w(2, -1, 0)], 2),
+        Con::LinEq(vec![w(0, 2, 0), w(1, 1, 5)], 6),
+        Con::LinNe(vec![w(0, 1, 1), w(1, 1, 1), w(2, 1, 1)], 4),
+        Con::LinNe(vec![w(0, -1, 0), w(1, 1, 3)], 3),
+        Con::BinLe(w(0, 1, 1), w(1, 2, 0)),
+        Con::BinLe(w(0, 1, -3), w(1, 1, -4)),
+        Con::BinLt(w(0, 1, 0), w(1, 1, 0)),
+        Con::BinLt(w(0, 1, 2), w(1, 3, 0)),
+        Con::BinEq(w(0, 1, 1), w(1, -1, 2)),
+        Con::BinEq(w(0, 1, -1), w(1, 1, -1)),
+        Con::BinNe(w(0, 1, 4), w(1, 1, 4)),
+        Con::BinNe(w(0, 2, 0), w(1, 1, 1)),
+        Con::Max(vec![w(0, 1, 1), w(1, 2, 0)], w(2, 1, 1)),
+        Con::Max(vec![w(0, 1, -1), w(1, 1, -1)], w(2, -1, 0)),
+        Con::Abs(w(0, 1, -1), w(1, 1, 0)),
+        Con::Times(w(0, 1, 1), w(1, 1, 1), w(2, 3, 1)),
+        Con::Plus(w(0, 1, 1), w(1, 1, -1), w(2, 2, 0)),
+    ];
+    let mut out = vec![];
+    for c in &pool {
+        out.push(Model::new(vars.clone(), vec![c.clone()]));
+    }
+    let stride = if level >= 1 { 1 } else { 3 };
+    let mut k = 0;
+    for (i, a) in pool.iter().enumerate() {
+        for b in pool.iter().skip(i + 1) {
+            k += 1;
+            if k % stride == 0 {
+                out.push(Model::new(vars.clone(), vec![a.clone(), b.clone()]));
             }
         }
     }
